@@ -714,7 +714,7 @@ func (ctx Ctx) methodExpr(call *ast.CallExpr) coq.Expr {
 	switch f := f.(type) {
 	case *ast.Ident:
 		ctx.checkNotVariadic(call)
-		typeArgs := ctx.typeList(call, ctx.info.Instances[f].TypeArgs)
+		typeArgs := ctx.instanceTypeArgs(f)
 
 		// XXX: this could be a struct field of type `func()`; right now we
 		// don't support generic structs, so code with a generic function field
@@ -1301,6 +1301,30 @@ func (ctx Ctx) coqRecurFunc(fullFuncName string, e *ast.Ident) coq.Expr {
 	}
 }
 
+// instanceTypeArgs gives the type arguments that the use f of a generic
+// function is applied to.
+//
+// Inside the function itself f is the rec binder, which belongs to the
+// instance being defined and takes no type arguments: only an instantiation at
+// the function's own type parameters can go through it.
+func (ctx Ctx) instanceTypeArgs(f *ast.Ident) []coq.Expr {
+	inst, ok := ctx.info.Instances[f]
+	if !ok {
+		return nil
+	}
+	if fun, ok := ctx.info.Uses[f].(*types.Func); ok && fun.Pkg() != nil &&
+		fun.Pkg().Path() == ctx.pkgPath && fun.Scope().Contains(f.Pos()) {
+		tparams := fun.Type().(*types.Signature).TypeParams()
+		for i := 0; i < inst.TypeArgs.Len(); i++ {
+			if i >= tparams.Len() || !types.Identical(inst.TypeArgs.At(i), tparams.At(i)) {
+				ctx.unsupported(f, "recursive use of a generic function at different type arguments")
+			}
+		}
+		return nil
+	}
+	return ctx.typeList(f, inst.TypeArgs)
+}
+
 func (ctx Ctx) function(s *ast.Ident) coq.Expr {
 	ctx.dep.addDep(s.Name)
 	return ctx.coqRecurFunc(s.Name, s)
@@ -1417,12 +1441,14 @@ func (ctx Ctx) exprSpecial(e ast.Expr, isSpecial bool) coq.Expr {
 	case *ast.MapType:
 		return ctx.mapType(e)
 	case *ast.Ident:
-		if inst, ok := ctx.info.Instances[e]; ok {
+		if _, ok := ctx.info.Instances[e]; ok {
 			// a generic function used as a value: Go infers the type
 			// arguments its definition takes first
-			return coq.CallExpr{
-				MethodName: ctx.identExpr(e),
-				TypeArgs:   ctx.typeList(e, inst.TypeArgs),
+			if typeArgs := ctx.instanceTypeArgs(e); len(typeArgs) > 0 {
+				return coq.CallExpr{
+					MethodName: ctx.identExpr(e),
+					TypeArgs:   typeArgs,
+				}
 			}
 		}
 		return ctx.identExpr(e)
